@@ -395,7 +395,12 @@ def _compress_tiles(
     _pad = [(0, 0)] * data.ndim
     _pad[_ydim] = (0, max(0, meta.shape.y - data.shape[_ydim]))
     _pad[_ydim + 1] = (0, max(0, meta.shape.x - data.shape[_ydim + 1]))
-    if any(n >= t for (_, n), t in zip(_pad[_ydim : _ydim + 2], meta.tile.yx)):
+    if any(
+        -(-(have + n) // t) > -(-have // t)
+        for have, (_, n), t in zip(
+            data.shape[_ydim : _ydim + 2], _pad[_ydim : _ydim + 2], meta.tile.yx
+        )
+    ):
         import dask.array as da
 
         _fill = float(meta.nodata) if isinstance(meta.nodata, str) else meta.nodata
